@@ -88,6 +88,20 @@ def c01_api(r, idx):
         f = tgt.field.add(); f.name, f.number, f.label, f.type, f.type_name = "tier", 71, 1, 14, en
         dep_protos.append(dep)
         feats.append("dependency-package")
+    if idx % 2 == 1:
+        # services that each have ONE streaming kind only (the typing imports of the clients are conditional per kind)
+        ch = api.main.message("Chunk"); ch.field("data", 1, "bytes").field("name", 2, "string")
+        sm = api.main.message("Summary"); sm.field("count", 1, "int64")
+        up = api.main.service("Uploader", host=api.host)
+        up.rpc("GetSummary", ch.fqn, sm.fqn, http=("get", "/v1/{name=uploads/*}"))
+        up.rpc("Upload", ch.fqn, sm.fqn, cs=True)
+        wa = api.main.service("Watcher", host=api.host)
+        wa.rpc("Watch", ch.fqn, sm.fqn, ss=True, http=("get", "/v1/{name=watches/*}:watch"))
+        ct = api.main.service("Chatter", host=api.host)
+        ct.rpc("Chat", ch.fqn, sm.fqn, cs=True, ss=True)
+        pl = api.main.service("PlainOnly", host=api.host)
+        pl.rpc("Peek", ch.fqn, sm.fqn, http=("get", "/v1/{name=peeks/*}"))
+        feats.append("single-streaming-kind-services")
     if k in (3, 5):
         tree = api.main.message("TreeNode")
         tree.field("children", 1, tree.fqn, repeated=True).field("parent", 2, tree.fqn).map_field("index", 3, "string", tree.fqn)
@@ -284,6 +298,24 @@ def run(ctx):
             fld.ClearField("type_name")
         jobs.append((2000 + k, 0, req, {"transport": "rest", "params": [], "yaml": None, "ads": False}, [],
                      [sv.name for sv in fp.service], ["extended-operations", f"status-{status}"]))
+    # a dependency package that shares a textual prefix with the API package (foo.v1beta1 used by foo.v1); the library is
+    # given its own namespace so that the dependency's pb2 package does not sit inside the emitted unversioned package
+    for k, (tpkg, dpkg) in enumerate([("google.example.v1", "google.example.v1beta1"), ("acme.things.v2", "acme.things.v2alpha")]):
+        dep = File("/".join(dpkg.split(".")) + "/types.proto", dpkg)
+        mo = dep.message("Money"); mo.field("units", 1, "int64")
+        en = dep.enum("Tier", ["TIER_UNSPECIFIED", "TIER_FREE"])
+        f = File("/".join(tpkg.split(".")) + "/svc.proto", tpkg, deps=list(apigen.STD_DEPS) + [dep.proto.name])
+        rq = f.message("GetThingRequest"); rq.field("name", 1, "string").field("price", 2, mo.fqn)
+        rp = f.message("Thing"); rp.field("name", 1, "string").field("price", 2, mo.fqn).field("tier", 3, ("enum", en))
+        sv = f.service("Things", host="things.example.com")
+        sv.rpc("GetThing", rq.fqn, rp.fqn, http=("get", "/v1/{name=things/*}"), sigs=["name"])
+        try:
+            req = apigen.request([dep, f], to_generate=[f.proto.name])
+        except apigen.Invalid:
+            ctx.features["invalid-candidate"] += 1
+            continue
+        jobs.append((3000 + k, 0, req, {"transport": ["grpc+rest", "rest"][k], "params": ["python-gapic-namespace=acme.cloud", "python-gapic-name=things"],
+                                         "yaml": None, "ads": False}, [dep], ["Things"], ["dependency-package-shares-textual-prefix"]))
     results = gen.pmap(lambda j: run_case(j[:6]), jobs)
     checks, t1e = [], []
     for j, res in zip(jobs, results):
